@@ -24,7 +24,43 @@ const (
 
 type Locker = sync.Locker
 type WaitGroup = sync.WaitGroup
-type Pool = sync.Pool
+
+// Pool is a deterministic stand-in for sync.Pool: a LIFO stack under a real mutex.
+// sync.Pool itself is non-deterministic by design (per-P caches, victim cache cleared
+// by the GC, random drops under the race detector), which would make the number of
+// statements executed - and with it the schedule - differ from process to process.
+// It never drops an item, so an object that is Put twice is handed out twice, as it
+// can be with the real pool.
+type Pool struct {
+	mu    sync.Mutex
+	items []interface{}
+	New   func() interface{}
+}
+
+func (p *Pool) Get() interface{} {
+	p.mu.Lock()
+	if n := len(p.items); n > 0 {
+		x := p.items[n-1]
+		p.items = p.items[:n-1]
+		p.mu.Unlock()
+		return x
+	}
+	p.mu.Unlock()
+	if p.New != nil {
+		return p.New()
+	}
+	return nil
+}
+
+func (p *Pool) Put(x interface{}) {
+	if x == nil {
+		return
+	}
+	p.mu.Lock()
+	p.items = append(p.items, x)
+	p.mu.Unlock()
+}
+
 type Map = sync.Map
 type Cond = sync.Cond
 
